@@ -267,6 +267,8 @@ def finish(pid, tier, seed, outcome: Outcome | None, proof, broken: BuildBroken 
     n_viol = 0
     if outcome is not None:
         seen_known = set()
+        # smallest failing inputs first: they are the most useful replays
+        outcome.violations.sort(key=lambda v: len(str(v.get("signature_text", ""))))
         for v in outcome.violations:
             hit = None
             for k in known_active:
